@@ -105,7 +105,7 @@ def cases(rng, tier):
                 p["names"] = sub
             if f == "eq":
                 p["flip"] = rng.random() < 0.5
-                p["eqmode"] = rng.choice(["plain", "plain", "narrow", "one_cell"])
+                p["eqmode"] = rng.choice(["plain", "plain", "narrow", "one_cell", "close_big", "close_tiny", "float_same"])
         out.append(p)
     return out
 
@@ -185,13 +185,30 @@ def run_impl(p):
             # the selection is a table of its own: iterating it, selecting all of it again, concatenating it with nothing and
             # comparing it with itself must agree with its entries; the source is unchanged
             if len(r):
-                it = [[np.atleast_1d(np.asarray(getattr(e, n))).tolist() for n in names] for e in r]
+                it = [[np.atleast_1d(np.asarray(getattr(e, n))).tolist() for n in names] for e in list(r)]
                 again = _table(r[:], names)
                 if it != _entries(r, names) or again != o or not bool(r == r[:]) or _entries(obj, names) != _entries(_obj(p["cols"]), names):
                     raise AssertionError("a selected table does not behave like a table holding its entries")
             return o
         if f == "iter":
-            return [[np.atleast_1d(np.asarray(getattr(r, n))).tolist() for n in names] for r in obj]
+            # the entries are collected first and read afterwards (list(table), sorted(table, ...)): each is an entry of its own
+            es = list(obj)
+            kept = [[np.atleast_1d(np.asarray(getattr(r, n))).tolist() for n in names] for r in es]
+            as_we_go = [[np.atleast_1d(np.asarray(getattr(r, n))).tolist() for n in names] for r in obj]
+            if kept != as_we_go:
+                raise AssertionError("entries kept from an iteration differ from the entries seen while iterating")
+            return kept
+        if f == "eq" and p.get("eqmode") in ("close_big", "close_tiny", "float_same") and len(obj) >= 1:
+            # float fields whose tables differ in ONE cell by less than any sensible tolerance (1 in 1e8, or 4e-9 against 8e-9), and
+            # equal float tables: equality of tables is equality of cells
+            sc = 1e6 if p["eqmode"] != "close_tiny" else 1e-10
+            arrs = [(_arr(c).astype(np.float64) + 1.0) * sc for c in p["cols"]]
+            other_arrs = [x.copy() for x in arrs]
+            if p["eqmode"] == "close_big":
+                other_arrs[-1].reshape(-1)[-1] += 1.0
+            elif p["eqmode"] == "close_tiny":
+                other_arrs[0].reshape(-1)[0] *= 2.0
+            return bool(_cls(names)(*arrs) == _cls(names)(*other_arrs))
         if f == "eq" and p.get("eqmode") in ("narrow", "one_cell") and len(obj) >= 1:
             arrs = [_arr(c) for c in p["cols"]]
             j = next((i for i, a in enumerate(arrs) if a.ndim == 2 and a.shape[1] >= 2), None)
@@ -262,6 +279,8 @@ def oracle(p):
         return {"k": "obs", "entries": canon([list(r) for r in rows]), "len": canon(len(rows)), "names": canon(names)}
     if f == "iter":
         return canon(ents)
+    if f == "eq" and p.get("eqmode") in ("close_big", "close_tiny", "float_same") and len(ents) >= 1:
+        return canon(p["eqmode"] == "float_same")
     if f == "eq" and p.get("eqmode") in ("narrow", "one_cell") and len(ents) >= 1:
         return canon(False)
     if f == "eq":
@@ -287,8 +306,8 @@ def lean_request(p):
     if f == "concat":
         return {"op": "DC.run", "f": "concat", "tables": [cols(t) for t in p["tables"]]}
     if f == "eq":
-        if p.get("eqmode") == "narrow":
-            return None      # fields of different widths: numpy's broadcasting inside the field comparison is not in the model
+        if p.get("eqmode") in ("narrow", "close_big", "close_tiny", "float_same"):
+            return None      # float cells / fields of different widths: numpy's broadcasting inside the field comparison is not in the model
         c1 = cols(p["cols"])
         if len(c1) == 0 or len(c1[0]["v"]) == 0:
             return None
